@@ -11,7 +11,7 @@ innermost column), ``gen_tree(rng, depth, pool)`` draws a description determinis
 Preconditions of the properties that the generator respects (so that the unchanged tree raises no
 false alarm):
   * table columns are free to wrap: no ``width``/``min_width``/``max_width``/``no_wrap`` on columns,
-    no ``Table.width``/``min_width``, no ``Columns.width``;
+    no ``Table.width``, no ``Columns.width`` (``Table.min_width`` is allowed: it does not cap any column);
   * ``Constrain.width`` / ``Align.width`` / ``Panel.width`` are never below the structural minimum of
     the child (otherwise the child is *told* to render below its minimum);
   * a renderable that emits no trailing newline (``ProgressBar``, or a pass-through wrapper around it)
@@ -271,7 +271,9 @@ def gen_table(rng: random.Random, depth: int, budget: _Budget, pool: str, extras
             "collapse_padding": rng.random() < 0.3, "expand": expand, "show_header": rng.random() < 0.7,
             "show_footer": rng.random() < 0.3, "show_edge": rng.random() < 0.7, "show_lines": rng.random() < 0.3,
             "leading": leading, "title": gen_title(rng), "caption": gen_title(rng) if rng.random() < 0.5 else None,
-            "title_justify": rng.choice(["center", "center", "left", "right", "full"]), "cols": cols, "rows": rows}
+            "title_justify": rng.choice(["center", "center", "left", "right", "full"]), "cols": cols, "rows": rows,
+            # Table.min_width asks for a wider table, it never licenses more than the available width
+            "min_width": rng.choice([4, 12, 24, 60]) if rng.random() < 0.1 else None}
 
 
 def newline_less(d: Desc) -> bool:
@@ -570,7 +572,8 @@ def build(d: Desc):
         table = Table(title=d.get("title"), caption=d.get("caption"), box=getattr(rbox, d["box"]) if d["box"] else None,
                       padding=tuple(d["padding"]), collapse_padding=d["collapse_padding"], pad_edge=d["pad_edge"],
                       expand=d["expand"], show_header=d["show_header"], show_footer=d["show_footer"], show_edge=d["show_edge"],
-                      show_lines=d["show_lines"], leading=d["leading"], title_justify=d.get("title_justify", "center"))
+                      show_lines=d["show_lines"], leading=d["leading"], title_justify=d.get("title_justify", "center"),
+                      min_width=d.get("min_width"))
         for c in d["cols"]:
             table.add_column(build(c["header"]), build(c["footer"]), justify=c["justify"], overflow=c["overflow"], ratio=c["ratio"])
         for r in d["rows"]:
